@@ -210,6 +210,9 @@ def run(chk):
     for r in range(nrun):
         cname, extra = classes[r % len(classes)]
         lam = rng.choice([0.1, 0.3, 5.0, 30.0, 100.0])
+        if r == 0:
+            # always present: the base class with partial dynamical retention, scaled UP a hundredfold (several million stars)
+            extra, lam = dict(BH_ret_dyn=0.5), 100.0
         base = dict(m_breaks=[0.1, 0.5, 1.0, 100], a_slopes=[-0.5, -1.3, -2.5], nbins=[3, 3, 10], FeH=rng.choice([-1.0, 0.0]),
                     tout=[rng.choice([3000.0, 9000.0, 12000.0])], esc_norm=rng.choice(["N", "M"]))
         N0 = 10 ** rng.uniform(4.7, 5.7)
